@@ -463,8 +463,66 @@ func checkC08(ref *progen.Ref, o *runOut) []finding {
 	if !o.res.Returned || len(o.res.Blocked) == 0 {
 		return nil
 	}
-	return []finding{{fmt.Sprintf("leak(blocked=%s,derived-ctx-cancelled=%s,main-exit=%s)", blockedOps(o.res.Blocked, true), yn(o.res.DerivedCancelled), o.res.MainExit),
+	// what are the leaked goroutines waiting for, and what had failed on the injector's own thread
+	awaited := "unknown"
+	if ref.ChanProducer != nil {
+		free, fed := false, false
+		for _, b := range o.res.Blocked {
+			for _, c := range b.Chans {
+				if p, ok := ref.ChanProducer[c]; ok {
+					if rc := ref.Calls[p]; rc != nil && len(rc.In) == 0 {
+						free = true
+					} else {
+						fed = true
+					}
+				}
+			}
+		}
+		switch {
+		case free && fed:
+			awaited = "input-free+fed"
+		case free:
+			awaited = "input-free"
+		case fed:
+			awaited = "fed"
+		}
+	}
+	failedOnMain := "none"
+	for i := range o.res.Calls {
+		c := &o.res.Calls[i]
+		if c.Err != nil && c.Thread == 0 {
+			failedOnMain = "fed"
+			if rc := ref.Calls[c.Name]; rc != nil && len(rc.In) == 0 {
+				failedOnMain = "input-free"
+			}
+		}
+	}
+	return []finding{{fmt.Sprintf("leak(blocked=%s,derived-ctx-cancelled=%s,main-exit=%s,awaited-producer=%s,failed-on-main=%s)", blockedOps(o.res.Blocked, true), yn(o.res.DerivedCancelled), o.res.MainExit, awaited, failedOnMain),
 		"the injector returned and these goroutines can never finish: " + describeBlocked(o.res.Blocked)}}
+}
+
+// chanProducers runs the injector once fault-free and notes, for every done-channel, which provider had
+// just returned on the closing thread.
+func chanProducers(pr *PkgReg, inj, nonce string) map[string]string {
+	o, err := simulate(pr, inj, simrt.Plan{Seed: 1, Strategy: "mainlast", CancelStep: -1}, nonce)
+	if err != nil {
+		return nil
+	}
+	last := map[int]string{}
+	m := map[string]string{}
+	for _, e := range o.res.Events {
+		switch e.Kind {
+		case "exit":
+			name := e.Detail
+			if i := strings.IndexByte(name, ' '); i >= 0 {
+				name = name[:i]
+			}
+			last[e.Thread] = name
+		case "close":
+			m[e.Detail] = last[e.Thread]
+		}
+	}
+	return m
 }
 
 var checkers = map[string]func(*progen.Ref, *runOut) []finding{
@@ -853,6 +911,9 @@ func (rn *runner) replay() {
 		return
 	}
 	ref := progen.Evaluate(sp, inj, c.Nonce)
+	if rn.job.Property == "C08" {
+		ref.ChanProducer = chanProducers(pr, c.Injector, c.Nonce)
+	}
 	o, err := simulate(pr, c.Injector, c.Plan, c.Nonce)
 	if err != nil {
 		rn.out.Harness = append(rn.out.Harness, err.Error())
@@ -911,6 +972,9 @@ func (rn *runner) explore() {
 				continue
 			}
 			rn.out.Injectors++
+			if job.Property == "C08" {
+				ref.ChanProducer = chanProducers(pr, name, nonce)
+			}
 			scen := rn.scenarios(ref, sp, rnd, thorough, pr, name, nonce, seed)
 			if len(scen) == 0 {
 				rn.out.Skipped["no_applicable_scenario"]++
